@@ -480,7 +480,8 @@ fn main() {
                         match &items[i] {
                             Item::Struct(ei, wi) => {
                                 let w = &corpora[ents[*ei].family].structs[*wi];
-                                let dd = if w.buf.len() > 4096 { 1.min(d) } else { d };
+                                // double deviations only for compact structures (the product grows quadratically)
+                                let dd = if w.buf.len() > 200 || w.lens.len() > 8 { 1.min(d) } else { d };
                                 deviations(w, dd, sfx, 40, &mut |_, b| one(*ei, b, &mut sink));
                             }
                             Item::Alpha(ei, prefix, single) => {
